@@ -261,7 +261,12 @@ SRP: the password enters M1 only through the session key `K` (`K_client` is deri
 although `x' ≠ x` (probability ≈ 2⁻²⁵⁶ over `a, b`, but not zero), in which case the server *does* accept.
 What is proved, at full generality (any client username, password, announced group, `B`, salt, private
 key): acceptance implies an explicit SHA-1 collision pair **or** the two sides hold the same session key.
-The second disjunct cannot be removed for all `a, b` because it is not false for all of them. -/
+The second disjunct cannot be removed for all `a, b` because it is not false for all of them.
+
+Continued in Props/C02Password.lean (it needs the value theorems of Props/C03.lean, which this file does
+not import): `C02_wrong_password_three_way` adds the hypothesis `pw' ≠ pw` and takes the second disjunct
+apart — interleave collision, `calculate_x` collision, or the arithmetic coincidence of the two secrets
+with `x' ≠ x` — and `C02_wrong_username_collision` shows that another username always yields a collision. -/
 
 /-- **wrong password (partial)**: the server accepts what a client object computed ⇒ either the two
     M1 inputs are an explicit collision pair, or client and server derived the same session key -/
